@@ -12,7 +12,7 @@ FAM_CFG = "INIT FamInit\nNEXT FamNext\nCONSTRAINT FamEmit\nINVARIANT FamLaw\nCHE
 GRID_CFG = "INIT GridInit\nNEXT GridNext\nCONSTRAINT GridEmit\nINVARIANT GridLaw\nCHECK_DEADLOCK FALSE\n"
 JUDGE_CFG = "INIT JudgeInit\nNEXT JudgeNext\nCHECK_DEADLOCK FALSE\n"
 DRIVER = "checks.c04_driver:driver"
-FAM_KINDS = ("long", "esc", "stmt", "lt", "nest", "chain")
+FAM_KINDS = ("long", "esc", "stmt", "lt", "nest", "chain", "scope")
 
 KEYWORDS = ["var", "function", "return", "if", "else", "while", "do", "for", "in", "of", "break", "continue", "switch", "case",
             "default", "try", "catch", "finally", "throw", "new", "delete", "typeof", "instanceof", "this", "true", "false",
@@ -176,7 +176,7 @@ def run(rep):
         fams = [fams[k] for k in sorted(fams)]
         fres.records, fres.stdout = None, ""
         nfam = {k: sum(1 for f in fams if f["kind"] == k) for k in FAM_KINDS}
-        if nfam["long"] < 500 or nfam["esc"] < 200 or nfam["stmt"] < 3000 or nfam["lt"] < 80 or nfam["nest"] < 400 or nfam["chain"] < 150:
+        if nfam["long"] < 500 or nfam["esc"] < 200 or nfam["stmt"] < 3000 or nfam["lt"] < 80 or nfam["nest"] < 400 or nfam["chain"] < 150 or nfam["scope"] < 10000:
             raise Machinery("families incomplete: %r" % nfam)
         lens_ = sorted({f["n"] for f in fams if f["kind"] == "long"})
         rep.spaces.append({"space": "numeric literals of %d..%d digits (13 forms x %d lengths x 2 digits x 5 embeddings, TLC-enumerated)"
@@ -191,6 +191,9 @@ def run(rep):
         rep.spaces.append({"space": "flat source that nests the syntax tree: %d chain kinds x lengths %s (TLC-enumerated)"
                                     % (len({f["name"] for f in fams if f["kind"] == "chain"}), sorted({f["n"] for f in fams if f["kind"] == "chain"})),
                            "cases": nfam["chain"], "complete": True})
+        rep.spaces.append({"space": "jump x scope path (break / continue / labelled / return under every path of <= %d frames: loops, switch, "
+                                    "labels, blocks, function and arrow boundaries; plain hole and after a sibling loop; TLC-enumerated)"
+                                    % max(f["n"] for f in fams if f["kind"] == "scope"), "cases": nfam["scope"], "complete": True})
         process(rep, rng, [{"kind": "fam", "fam": f} for f in fams], stats)
 
     def part_grid():
